@@ -455,6 +455,52 @@ func (m *c16Mon) OnState(w *world.World, hist []world.Op) []explore.Finding {
 				}
 			}
 		}
+		// Min / Max and every single step from them read at most one path; so does an iteration stopped at its first entry
+		for _, dir := range []string{"Min+Forward", "Max+Backward"} {
+			var c *mast.Cursor
+			w.Store.ResetLog()
+			r := guardRes(func() (err error) {
+				if c, err = t.Cursor(ctx); err != nil {
+					return err
+				}
+				if dir == "Min+Forward" {
+					return c.Min(ctx)
+				}
+				return c.Max(ctx)
+			})
+			if r.Err != nil || r.Panic != nil {
+				continue
+			}
+			if n := len(w.Store.Calls("load")); n > h+1 {
+				out = append(out, explore.Finding{Sig: "C16|Cursor." + dir[:3] + "|too-many-loads", What: "placing a cursor at an end read more nodes than height+1", Detail: fmt.Sprintf("%d loads, height %d", n, h)})
+				continue
+			}
+			for s := 0; s <= cfg.NAll(); s++ {
+				if _, _, ok := c.Get(); !ok {
+					break
+				}
+				w.Store.ResetLog()
+				r := guardRes(func() error {
+					if dir == "Min+Forward" {
+						return c.Forward(ctx)
+					}
+					return c.Backward(ctx)
+				})
+				if r.Err != nil || r.Panic != nil {
+					break
+				}
+				if n := len(w.Store.Calls("load")); n > h+1 {
+					out = append(out, explore.Finding{Sig: "C16|Cursor." + dir[4:] + "|too-many-loads", What: "one cursor step read more nodes than height+1", Detail: fmt.Sprintf("step %d of %s: %d loads, height %d", s+1, dir, n, h)})
+					break
+				}
+			}
+		}
+		w.Store.ResetLog()
+		if r := guardRes(func() error { return t.Iter(ctx, func(k, v interface{}) error { return mast.ErrIterDone }) }); r.Err == nil && r.Panic == nil {
+			if n := len(w.Store.Calls("load")); n > h+1 {
+				out = append(out, explore.Finding{Sig: "C16|Iter-first-entry|too-many-loads", What: "an iteration stopped at its first entry read more nodes than height+1", Detail: fmt.Sprintf("%d loads, height %d", n, h)})
+			}
+		}
 		w.Store.ResetLog()
 		r := guardRes(func() error { _, err := t.Clone(ctx); return err })
 		if r.Err == nil && r.Panic == nil {
@@ -491,7 +537,13 @@ func (m *c16Mon) After(w *world.World, op world.Op, res world.Res, pre interface
 			name = "Delete"
 		}
 		return chk(name, loads, 2*(h+1), "")
+	case world.OpPersist, world.OpKeep:
+		// persisting reads nothing proportional to the tree: at most the paths of the keys modified since the last version
+		return chk("MakeRoot", loads, 2*(h+1)*len(w.Cfg.Keys), "")
 	case world.OpReload, world.OpReloadJSON:
+		if f := chk("MakeRoot", loads, 2*(h+1)*len(w.Cfg.Keys), ""); f != nil {
+			return f
+		}
 		return chk("LoadMast", world.Count(res.AuxCalls, "load"), 1, "")
 	case world.OpLoad, world.OpLoadNoCache:
 		return chk("LoadMast", loads, 1, "")
